@@ -267,6 +267,11 @@ def job_gen_run_any(args):
     focus = list(gen.get("focus") or [])
     gen["focus"] = focus + ["ploop"]
     gen["any_shape"] = True
+    directed = ("cloop" in focus or "par" in focus) and rng.random() < 0.3
+    if directed:
+        # a loop around a Parallel block of called tasks with loops of their own, driven with completions reported from
+        # inside service-finished notifications (below)
+        gen["template"] = "loop_around_parallel"
     case = sc.gen_case(rng, depth=rng.choice([2, 3, 3]), hist=rng.random() < 0.25, max_ops=opts.get("max_ops", 40), **gen)
     case["ids"] = "test"
     case["mutate"] = False
@@ -278,7 +283,7 @@ def job_gen_run_any(args):
         case["imm"] = [True, False]
     if rng.random() < 0.15:
         case["start_by_event"] = True
-    if rng.random() < 0.2:
+    if rng.random() < (0.7 if directed else 0.2):
         # completions of other outstanding services reported from inside service-FINISHED notifications (finding K19)
         case["imm_sf"] = [rng.random() < 0.5 for _ in range(rng.randint(1, 5))]
     r = job_run(case)
